@@ -372,7 +372,29 @@ pub fn addr_of(script: &[u8]) -> Option<String> {
     if n == 25 && script[0] == 0x76 && script[1] == 0xa9 && script[2] == 0x14 && script[23] == 0x88 && script[24] == 0xac { return Some(b58check(0, &script[3..23])); }
     if (n == 35 && script[0] == 33 && script[34] == 0xac) || (n == 67 && script[0] == 65 && script[66] == 0xac) { return Some(b58check(0, &hash160_of(&script[1..n - 1]))); }
     if n == 23 && script[0] == 0xa9 && script[1] == 0x14 && script[22] == 0x87 { return Some(b58check(5, &script[2..22])); }
+    // witness programs (BIP141/173/350): version opcode, one push of 2..=40 bytes; v0 only with 20 or 32 bytes
+    if n >= 4 && n <= 42 && (script[0] == 0 || (0x51..=0x60).contains(&script[0])) && script[1] as usize == n - 2 {
+        let ver = if script[0] == 0 { 0 } else { script[0] - 0x50 };
+        if ver == 0 && n != 22 && n != 34 { return None; }
+        return Some(segwit_addr("bc", ver, &script[2..]));
+    }
     None
+}
+/// independent bech32 / bech32m encoder (BIP173 / BIP350)
+pub fn segwit_addr(hrp: &str, ver: u8, prog: &[u8]) -> String {
+    const CH: &[u8] = b"qpzry9x8gf2tvdw0s3jn54khce6mua7l";
+    fn polymod(v: &[u8]) -> u32 { let g = [0x3b6a57b2u32, 0x26508e6d, 0x1ea119fa, 0x3d4233dd, 0x2a1462b3]; let mut c = 1u32;
+        for x in v { let b = c >> 25; c = ((c & 0x1ffffff) << 5) ^ (*x as u32); for i in 0..5 { if (b >> i) & 1 == 1 { c ^= g[i]; } } } c }
+    let mut data = vec![ver];
+    let (mut acc, mut bits) = (0u32, 0u32);
+    for b in prog { acc = (acc << 8) | *b as u32; bits += 8; while bits >= 5 { bits -= 5; data.push(((acc >> bits) & 31) as u8); } }
+    if bits > 0 { data.push(((acc << (5 - bits)) & 31) as u8); }
+    let mut v: Vec<u8> = hrp.bytes().map(|c| c >> 5).collect(); v.push(0); v.extend(hrp.bytes().map(|c| c & 31)); v.extend(&data); v.extend([0u8; 6]);
+    let m = polymod(&v) ^ (if ver == 0 { 1 } else { 0x2bc830a3 });
+    let mut out = format!("{}1", hrp);
+    for d in &data { out.push(CH[*d as usize] as char); }
+    for i in 0..6 { out.push(CH[((m >> (5 * (5 - i))) & 31) as usize] as char); }
+    out
 }
 /// a random spend history: fan-in / fan-out, spends inside the creating block, spends of unknown outpoints,
 /// address-less outputs, zero values, a duplicated txid, more than 256 outputs, P2PK and P2PKH of one key
